@@ -112,6 +112,8 @@ def _case(draw):
         fam["unnamed_sources"] = True
     if F.chance(draw, 1, 4):
         fam["partial_locations"] = True
+    if F.chance(draw, 1, 5):
+        fam["explicit_default_layer"] = draw(st.integers(1, len(fam["masters"]) - 1))
     if F.chance(draw, 1, 4):
         fam.setdefault("lib", {})["public.fontInfo"] = draw(VF_INFO)
     ops = []
@@ -292,6 +294,8 @@ def run_case(case, ctx):
     ctx.label(case["kind"])
     if any(len(op["opts"].get("skipExportGlyphs", [])) > 1 for op in case["ops"]):
         ctx.label("skipped-composite-of-a-skipped-glyph")
+    if case["kind"] == "family" and case["fam"].get("explicit_default_layer") is not None:
+        ctx.label("source-naming-its-default-layer")
     if case["kind"] == "family" and case["fam"].get("partial_locations"):
         ctx.label("sources-with-partial-locations")
     if case["kind"] == "family" and "public.fontInfo" in case["fam"].get("lib", {}):
